@@ -180,8 +180,10 @@ Theorem replace_it_is_inplace s first last src : inv s -> 0 <= first <= last -> 
     Some (contents s') = s_replace_inplace (contents s) first (last - first) src.
 Proof.
   intros I Hf Hl. pose proof (contents_len s I) as L. pose proof (zlen_nonneg src) as Hsrc.
+  pose proof I as (Hcap & _ & Hsz & _). unfold cap_ok in Hcap.
   unfold replace_it_m, s_replace_inplace. change slen with zlen. rewrite L.
-  replace ((0 <=? first) && (first <=? last) && (last <=? get_size s)) with true by lia.
+  rewrite (sz_id first), (sz_id (last - first)) by lia. rewrite (sz_id (get_size s - first)) by lia.
+  replace (last - first <=? get_size s - first) with true by lia.
   replace (first <=? get_size s) with true by lia.
   set (n := if zlen src <? last - first then zlen src else last - first).
   assert (En : Z.min (Z.min (last - first) (get_size s - first)) (zlen src) = n) by (unfold n; destruct (zlen src <? last - first) eqn:E; lia).
@@ -201,8 +203,10 @@ Theorem replace_it_fill_is_inplace s first last count2 ch : inv s -> 0 <= first 
     Some (contents s') = s_replace_inplace (contents s) first (last - first) (rep count2 ch).
 Proof.
   intros I Hf Hl Hc. pose proof (contents_len s I) as L.
+  pose proof I as (Hcap & _ & Hsz & _). unfold cap_ok in Hcap.
   unfold replace_it_fill_m, s_replace_inplace. change slen with zlen. rewrite L.
-  replace ((0 <=? first) && (first <=? last) && (last <=? get_size s)) with true by lia.
+  rewrite (sz_id first), (sz_id (last - first)) by lia. rewrite (sz_id (get_size s - first)) by lia.
+  replace (last - first <=? get_size s - first) with true by lia.
   replace (first <=? get_size s) with true by lia. rewrite min_sz_min.
   assert (Lr : zlen (rep count2 ch) = count2) by (unfold rep; rewrite zlen_repeat; lia).
   rewrite Lr.
@@ -217,4 +221,22 @@ Proof.
   rewrite W. cbn [rbind]. exists (with_buf s b). split; [reflexivity|]. split.
   - apply (overwrite_keeps s first (repeat ch (Z.to_nat n)) b I); [lia| |exact W]. rewrite Ln. unfold n. lia.
   - rewrite C, Ln. reflexivity.
+Qed.
+
+(* ... and every iterator pair that is NOT a range of the string stops at the precondition (fix commit 377d1df);
+   iterators are ptrdiff_t offsets from begin() *)
+Theorem replace_it_contract s first last : inv s ->
+  -9223372036854775808 <= first < 9223372036854775808 -> -9223372036854775808 <= last < 9223372036854775808 ->
+  ~ (0 <= first <= last /\ last <= get_size s) ->
+  (forall src, replace_it_m s first last src = Contract) /\
+  (forall count2 ch, replace_it_fill_m s first last count2 ch = Contract).
+Proof.
+  intros (Hcap & _ & Hsz & _) Hf Hl Hbad. unfold cap_ok in Hcap.
+  assert (G : (sz first <=? get_size s) && (sz (last - first) <=? sz (get_size s - sz first)) = false).
+  { destruct (sz first <=? get_size s) eqn:E1; [|reflexivity]. cbn [andb].
+    assert (Hfirst : 0 <= first <= get_size s) by (unfold sz in E1; lia).
+    rewrite (sz_id first) by lia. rewrite (sz_id (get_size s - first)) by lia.
+    unfold sz. apply Z.leb_gt. lia. }
+  split; intros; [unfold replace_it_m|unfold replace_it_fill_m];
+    destruct (sz first <=? get_size s); cbn [andb] in G; [rewrite G| |rewrite G|]; reflexivity.
 Qed.
